@@ -1925,6 +1925,10 @@ class SSHX509Certificate(SSHCertificate):
                            comment: _Comment = None) -> 'SSHX509Certificate':
         """Construct an SSH X.509 certificate from DER data"""
 
+        if not _x509_available: # pragma: no cover
+            raise KeyImportError('X.509 certificate import requires '
+                                 'PyOpenSSL')
+
         try:
             x509_cert = import_x509_certificate(data)
             key = import_public_key(x509_cert.key_data)
